@@ -40,9 +40,16 @@ def gen_world(rng, idx):
     elif r < 0.4:
         # a layer on two roots and siblings on one of them
         layers = gen.mi_sibling_family(rng, p_hook=0.75)
+    twins = False
+    if r >= 0.4 and r < 0.5:
+        # two different base layer objects with one name
+        layers = gen.twin_base_family(rng)
+        twins = True
     tbl = {}
     for ls in layers:
-        if rng.random() < 0.8:
+        if ls.get('pyname'):
+            continue        # (tests are grouped by layer name: unique ones)
+        if rng.random() < (0.95 if twins else 0.8):
             tbl[ls['name']] = [
                 {'name': 'test_%d' % i,
                  'kind': 'fail' if rng.random() < 0.1 else 'pass'}
